@@ -12,11 +12,13 @@
     The registration part of C12 (plugins (un)registered between hook calls)
     is not about the lifecycle model: it is stated on the registry model
     Life/Registry.v (a hook call is an atomic snapshot of the registry).
-    A run that FAILS TO START (a plugin's session context raising) is not a
-    label of the lifecycle model: that part of C12's quantifier is covered by
-    the run-fails-to-start scenarios and the oracle only. *)
+    A run that FAILS TO START (an exception anywhere in the run session) is not a
+    label of the lifecycle model: that part of C12's quantifier is stated on the
+    skeleton model Life/FailStart.v, regenerated from the source, at the end of
+    this file. *)
 From NL Require Import Life.Model Life.LockInv Life.FsmInv Life.Hist Life.Protocol Life.Registry.
 From NL Require Relay.Model Relay.Proofs.
+From NL Require Life.FailStart Life.FailStartProofs.
 Open Scope Z_scope.
 
 (** per run: initialise-run, start-run, end-run while the state is still
@@ -131,6 +133,68 @@ Proof.
   intros l H. exact (NL.Relay.Proofs.nothing_after_end true script ls l H).
 Qed.
 
+(** ---- "every way the run ends, including a FAILURE TO START" ----
+    Life/FailStart.v interprets the control-flow skeletons of Callback._run/_finish,
+    RunSession.run and relay_events, REGENERATED from /repo at every check
+    (Gen/CallbackSkeleton.v).  Every await of the run session (entry/exit of a user plugin's
+    `run` context, spawn, on_start_run, the process wait, drain, sentinel, the monitor,
+    on_end_run, the finish trigger with its on_finished hooks) returns or raises as the oracle
+    [o] says ([true] = raises, in execution order); the statements hold for EVERY oracle:
+    whichever awaits raise, none, or several (in finally blocks). *)
+
+(** run_arg is set to None before the transition to `finished`, which happens exactly once;
+    the event wait()/close() wait for is set after it even when it raises; the run() call
+    is always unblocked *)
+Theorem C12_run_arg_withdrawn_before_finished : forall o,
+  FailStart.run_arg_withdrawn_before_finished (FailStart.trace o) = true.
+Proof. exact FailStartProofs.run_arg_withdrawn. Qed.
+
+(** nothing after the transition to `finished` except setting that event: no hook of the run *)
+Theorem C12_no_hook_after_finished : forall o,
+  FailStart.nothing_after_finished (FailStart.trace o) = true.
+Proof. exact FailStartProofs.no_hook_after_finished. Qed.
+
+(** what the code guarantees about on_start_run / on_end_run under failures: on_end_run is
+    called iff EVERY earlier await of the session returned (user context entered, process
+    spawned, on_start_run, the process wait, drain, sentinel, monitor); on_start_run is called
+    iff the user context was entered and the process spawned; each at most once, in this order *)
+Theorem C12_end_run_iff_start_run_completed : forall o,
+  FailStart.end_run_iff (FailStart.trace o) = true.
+Proof. exact FailStartProofs.end_run_iff_all_returned. Qed.
+
+(** a spawned process is awaited provided on_start_run returned ... *)
+Theorem C12_process_awaited_partial : forall o,
+  FailStart.process_awaited_if_started (FailStart.trace o) = true.
+Proof. exact FailStartProofs.process_awaited_partial. Qed.
+
+(** ... and NOT otherwise: when on_start_run raises (third await) the process has been spawned
+    and is never awaited (the child is left alive at `finished`; DESIGN 6.1: an observation
+    about faulty plugins).  Added hypothesis of the partial statement: on_start_run returned *)
+Theorem C12_process_awaited_refuted :
+  exists o, FailStart.returned CallbackSkeleton.Spawn (FailStart.trace o) = true /\
+            FailStart.called CallbackSkeleton.AwaitProcess (FailStart.trace o) = false /\
+            FailStart.run_arg_withdrawn_before_finished (FailStart.trace o) = true.
+Proof. exact FailStartProofs.process_awaited_refuted. Qed.
+
+(** the monitor task, once created, is always driven towards its end; it is awaited iff the
+    drain and the sentinel put returned *)
+Theorem C12_monitor_closed : forall o, FailStart.monitor_closed (FailStart.trace o) = true.
+Proof. exact FailStartProofs.monitor_always_closed. Qed.
+
+(** four oracles: no failure; the user plugin's run context raises on entry (before any
+    spawn); the process wait raises; the finish trigger (an on_finished hook) raises.
+    observation = (hooks seen: 1 on_start_run, 2 on_end_run, 3 on_finished; run_arg None at
+    on_finished; run() unblocked; finished-event set) *)
+Example C12_failstart_example :
+  FailStart.observe [] = ([1; 2; 3], true, true, true)%nat /\
+  FailStart.observe [true] = ([3], true, true, true)%nat /\
+  FailStart.observe [false; false; false; true] = ([1; 3], true, true, true)%nat /\
+  FailStart.observe [false; false; false; false; false; false; false; false; false; true] = ([1; 2; 3], true, true, true)%nat /\
+  FailStart.raises [] = false /\ FailStart.raises [true] = true /\
+  FailStart.raises [false; false; false; false; false; false; false; false; false; true] = true /\
+  length (FailStart.outcomes FailStart.program) = 70%nat.
+Proof. vm_compute. repeat split. Qed.
+
 Print Assumptions C12_order.
 Print Assumptions C12_run_arg_window.
 Print Assumptions C12_complete.
@@ -140,3 +204,10 @@ Print Assumptions C12_example_automaton_rejects.
 Print Assumptions C12_registration.
 Print Assumptions C12_registration_example.
 Print Assumptions C12_events_between_start_and_end.
+Print Assumptions C12_run_arg_withdrawn_before_finished.
+Print Assumptions C12_no_hook_after_finished.
+Print Assumptions C12_end_run_iff_start_run_completed.
+Print Assumptions C12_process_awaited_partial.
+Print Assumptions C12_process_awaited_refuted.
+Print Assumptions C12_monitor_closed.
+Print Assumptions C12_failstart_example.
